@@ -22,6 +22,19 @@ NodeB = type("Node", (), {})
 Node0 = type("Node0", (), {})
 
 
+import dataclasses as _dc
+
+
+@_dc.dataclass
+class Point:
+    x: int = 0
+
+
+@_dc.dataclass
+class Point3(Point):
+    z: int = 0
+
+
 class WithFoo:
     def foo(self): ...
 
@@ -162,7 +175,9 @@ def S_(b):
 
 def terms(depth=1):
     K = {}
-    K["Class"] = [object, A, B, C, D, E, int, bool, str, Sized, Proto, Proto2, WithFoo, tuple, type]
+    from ovld.types import Dataclass
+
+    K["Class"] = [object, A, B, C, D, E, int, bool, str, Sized, Proto, Proto2, WithFoo, tuple, type, Dataclass, Point, Point3]
     K["Alias"] = [list[A], list[B], list[int], list[bool], dict[str, A], dict[str, B], dict[bool, str], dict[int, str], dict[int, A], dict[bool, B], type[A], type[B], type[object], list[list[A]], list[list[B]], typing.List[A], set[A], typing.Tuple[()], tuple[()]]
     K["Union"] = [N(A | E), N(B | C), N(B | E), N(C | B), N(int | str), N(bool | str), N(E | A)]
     K["Inter"] = [I_(A, E), I_(B, C), I_(B, E), I_(C, B), I_(A, Proto), I_(E, A)]
